@@ -60,9 +60,10 @@ class World:
         if kind in ('B', 'S') and parent is None:
             block = None
         line = 'mk %s %s %s %s %s' % (slot, kind, pslot, S(name), S(typ))
+        shape = pos = None
         if kind == 'A':
             dt = r.choice(['Double', 'Int32', 'String', 'UInt8', 'Float'])
-            shape = [r.choice([1, 2, 3, 5]) for _ in range(r.choice([1, 1, 2]))]
+            shape = extra if extra is not None else [r.choice([1, 2, 3, 5]) for _ in range(r.choice([1, 1, 2]))]
             line += ' %s %s' % (dt, lst([str(x) for x in shape]))
         elif kind == 'D':
             cols = [('c%d' % i, r.choice(['', 'mV', 's']), r.choice(['Double', 'Int32', 'String', 'Bool'])) for i in range(r.randint(1, 3))]
@@ -84,6 +85,8 @@ class World:
         self.emit(line)
         dup = (not allow_dup) or name not in self.taken(kind, pslot)
         e = Ent(slot, kind, pslot, name, block if kind != 'B' else slot)
+        e.shape = shape          # arrays: the extent they were created with
+        e.pos = pos              # multi-tags: the positions array
         if kind == 'B':
             e.block = slot
         if name in self.taken(kind, pslot) or name in BAD_NAMES or typ == '':
